@@ -24,7 +24,7 @@ use std::sync::Arc;
 use zksync_concurrency::{ctx, net};
 
 use super::Network;
-use crate::{gossip::verif::VGossip, metrics::MeteredStream, preface};
+use crate::{gossip::verif::{VGossip, VTcp}, preface};
 
 #[derive(Clone)]
 pub struct VConsensus(Arc<Network>);
@@ -40,10 +40,9 @@ impl VConsensus {
     pub fn outbound_keys(&self) -> Vec<validator::PublicKey> {
         self.0.outbound.current().keys().cloned().collect()
     }
-    /// Accepts one TCP connection on the validator endpoint: `preface::accept`, `run_inbound_stream`.
-    pub async fn accept_one(&self, ctx: &ctx::Ctx, listener: &mut net::tcp::Listener) -> Result<(), String> {
-        let stream = MeteredStream::accept(ctx, listener).await.map_err(|e| format!("accept: {e:#}"))?;
-        let (stream, endpoint) = preface::accept(ctx, stream).await.map_err(|e| format!("preface: {e:#}"))?;
+    /// Handles an accepted TCP connection on the validator endpoint: `preface::accept`, `run_inbound_stream`.
+    pub async fn handle_inbound(&self, ctx: &ctx::Ctx, tcp: VTcp) -> Result<(), String> {
+        let (stream, endpoint) = preface::accept(ctx, tcp.0).await.map_err(|e| format!("preface: {e:#}"))?;
         if endpoint != preface::Endpoint::ConsensusNet {
             return Err("wrong endpoint".into());
         }
